@@ -1,4 +1,5 @@
 import MimeModel.Model.Detect
+import MimeModel.Lemmas.DetectTie
 import MimeModel.Gen.Writes
 /-
   C04 — detection is a pure function of the examined header.
@@ -63,5 +64,8 @@ theorem no_input_writes :
 /- non-vacuity: a dirty pooled state (deep path, satisfied query) gives the fresh answer -/
 example : parseWith { ib := 99, currPath := [[1], [2]], firstToken := 128, querySatisfied := true }
     4096 q_geo [0x7B, 0x7D] = parseWith PState.fresh 4096 q_geo [0x7B, 0x7D] := rfl
+
+/-- regenerated tie: `Detect` / `DetectReader` load the limit once, atomically (see Lemmas/DetectTie.lean) -/
+theorem tie_single_limit : Mime.DetectTie.SingleLimit := Mime.DetectTie.single_limit
 
 end Mime.C04
